@@ -245,4 +245,57 @@ def rule_apply(ctx):
     return r
 
 
-RULES = [rule_order, rule_pair, rule_multpair, rule_apply]
+def rule_chunkkey(ctx):
+    """A lazily generated output chunk is labelled with the key of a slice that went
+    into it: the slice number handed to ``slice_key`` is one of the numbers handed to
+    ``contract_slice`` for the same chunk (all of them share the output digits)."""
+    r = RuleResult("C06-CHUNKKEY", "output chunks are labelled with the key of their own slices", 1)
+    tc = tree_class(ctx)
+    f = tc.lookup("gen_output_chunks")
+    C.require(f is not None, "gen_output_chunks not found")
+    la = ctx.r.local_assignments(f)
+
+    def norm(e, depth=0):
+        if isinstance(e, ast.Name) and depth < 4:
+            defs = la.get(e.id, [])
+            if len(defs) == 1:
+                return norm(defs[0], depth + 1)
+        return C.unparse(e)
+
+    keyed = [n for n in walk_local(f.node) if isinstance(n, ast.Call)
+             and isinstance(n.func, ast.Attribute) and n.func.attr == "slice_key" and n.args]
+    contracted = {norm(n.args[1]) for n in walk_local(f.node) if isinstance(n, ast.Call)
+                  and isinstance(n.func, ast.Attribute) and n.func.attr == "contract_slice"
+                  and len(n.args) >= 2}
+    C.require(keyed and contracted, "gen_output_chunks: slice_key / contract_slice calls not recognised")
+    for k in keyed:
+        key = ctx.key(f, "C06-CHUNKKEY")
+        if norm(k.args[0]) in contracted:
+            r.ok(key, C.loc(f, k), f"key of slice `{norm(k.args[0])}`, which is contracted into the chunk")
+        else:
+            r.violation(key, C.loc(f, k), f"the chunk is labelled with slice_key({norm(k.args[0])}) but "
+                        f"built from slices {sorted(contracted)}: keys repeat or skip, so the chunks "
+                        "no longer tile the output exactly once")
+    return r
+
+
+def rule_combine(ctx):
+    """Shared with C19-RESCALE / C19-COMBINE: per-slice results are combined by the
+    exponent-aware adder and stacked at a common exponent."""
+    from .c19 import rule_rescale, rule_combine as comb
+
+    r = C.reuse_rule(ctx, rule_rescale, "C19-RESCALE", "C06-COMBINE",
+                     "per-slice results are summed / stacked consistently (also with stripped "
+                     "exponents)", lambda i: True, 2)
+    for i in comb(ctx).instances:
+        c = i.construct.replace("C19-COMBINE", "C06-COMBINE")
+        if i.verdict == "violation":
+            r.violation(c, i.loc, i.reason, **i.detail)
+        elif i.verdict == "exempt":
+            r.exempt(c, i.loc, i.reason)
+        else:
+            r.ok(c, i.loc, i.reason)
+    return r
+
+
+RULES = [rule_order, rule_pair, rule_multpair, rule_apply, rule_chunkkey, rule_combine]
